@@ -560,4 +560,7 @@ def run(ctx):
     # caller-supplied auxv values stay in force for every dump (same rule instance as C19/config-preserved)
     from rules import c19 as _c19
     _c19.rule_config_preserved(ctx, R="C18/options-kept", only=("direct_auxv_dump_info",))
+    # the stream is attempted in every dump: its writer is on every success path of generate_dump (same rule instance as C01/every-stream-attempted)
+    from rules import c01 as _c01
+    _c01.rule_stream_attempted(ctx, R="C18/stream-attempted", only=("systeminfo_stream::write", "memory_info_list_stream::write", "MinidumpWriter::write_file", "dso_debug::write_dso_debug_stream", "handle_data_stream::write"))
 
